@@ -269,3 +269,23 @@ def shared_geometry(ctx: Ctx) -> None:
     from . import C18 as _c18
     from .common import support
     support(ctx, [_c18.r1, _c18.r4, _c18.r5, _c18.r6], {"Rectangle.split", "Rectangle.split_horizontal", "Rectangle.split_vertical", "Rectangle.duplicate", "Rectangle.x_cuttable", "Rectangle.y_cuttable", "Rectangle.overlap", "Rectangle.area_overlap"})
+
+
+@rule("C12", "R8.halving", "WHO-CALLS",
+      "the cells a refined cell is replaced by are made by Rectangle.split() -- which cuts the longer side in the middle "
+      "(C18 split-dispatch) -- applied level by level; no other piece maker (a grid, a fixed-direction split) is used by "
+      "refine / uniform_refinement_depth", floor=1)
+def r8(ctx: Ctx) -> None:
+    refine = ctx.func(ALLOC, "Allocation.refine")
+    helpers = [g for g in ctx.model.reachable([refine]) if g.module.relpath == ALLOC and g is not refine]
+    makers = {}
+    for g in [refine] + helpers:
+        for c in walk_own(g.node):
+            if isinstance(c, ast.Call) and call_name(c) in ("split", "split_horizontal", "split_vertical", "rectangle_grid"):
+                makers.setdefault(call_name(c), []).append(g.qualname)
+    ctx.site(refine.where, "piece makers used by refine and its helpers", makers={k: sorted(set(v)) for k, v in makers.items()})
+    other = {k: v for k, v in makers.items() if k != "split"}
+    if "split" not in makers or other:
+        ctx.report(refine.where, "cells-not-by-halving " + ",".join(sorted(makers)), "refine does not produce its cells by Rectangle.split() alone: the 2^levels cells of a refined "
+                   "cell are then not the result of repeatedly halving the longer side (e.g. a 12x2 cell refined twice must give four 3x2 cells)", lineno=refine.node.lineno,
+                   makers={k: sorted(set(v)) for k, v in makers.items()})
